@@ -84,12 +84,43 @@ def hArm : Handler := fun args impl => do
         | _ => fails := fails ++ [s!"emitted_text_is_not_one_statement:{macroName}!:arm={k}"]
     pure (model, fails)
 
+mutual
+/-- call names and children of a tree, as the emitter prints them -/
+def shapeOf : Scad Float → Spec.Shape
+  | .mk op cs => .node (((op.header fun _ => []).map (·.name)).getD []) (shapesOf cs)
+def shapesOf : ScadList Float → List Spec.Shape
+  | .nil => []
+  | .cons h t => shapeOf h :: shapesOf t
+end
+
 def hAddSub : Handler := fun args impl => do
   let ((a, b), _) ← (do let a ← treeF; let b ← treeF; pure (a, b) : P _).run args
-  let model : Res := [("add", oTree (Scad.add a b)), ("sub", oTree (Scad.sub a b))]
+  -- the wrapped texts are judged by the shape oracle below (the Float model has no `Display`)
+  let echo := ["in_minkowski", "in_difference", "in_intersection", "in_hull", "in_union"].filterMap fun k =>
+    (impl.find k).map fun v => (k, v)
+  let model : Res := [("add", oTree (Scad.add a b)), ("sub", oTree (Scad.sub a b))] ++ echo
   let mut fails : List String := []
   if impl.find "add" ≠ some (oTree (Scad.node .union [a, b])) then fails := fails ++ ["a_plus_b_is_not_union_of_a_b"]
   if impl.find "sub" ≠ some (oTree (Scad.node .difference [a, b])) then fails := fails ++ ["a_minus_b_is_not_difference_of_a_b"]
+  -- `a + b` / `a - b` as operands: through emission each must remain ONE operand of its parent
+  let sum := Scad.add a b; let dif := Scad.sub a b
+  let parents : List (String × Scad Float) := [
+    ("in_minkowski", Scad.node (.minkowski 3) [sum, b, dif]),
+    ("in_difference", Scad.node .difference [sum, dif, b]),
+    ("in_intersection", Scad.node .intersection [sum, b, dif]),
+    ("in_hull", Scad.node .hull [sum, b, dif]),
+    ("in_union", Scad.node .union [sum, b, dif])]
+  for (key, t) in parents do
+    match impl.find key with
+    | none => pure ()      -- an older harness: nothing to check
+    | some toks =>
+      match (str.run toks) with
+      | .ok (text, _) =>
+        match Spec.parseProgram text.toList with
+        | some [st] =>
+          if st.shape != shapeOf t then fails := fails ++ [s!"operand_structure_lost_in_emission:{key}"]
+        | _ => fails := fails ++ [s!"emitted_text_is_not_one_statement:{key}"]
+      | .error _ => fails := fails ++ [s!"emission_panicked:{key}"]
   pure (model, fails)
 
 def hInto : Handler := fun args impl => do
